@@ -52,7 +52,7 @@ class _MarkHandler(logging.Handler):
 
 
 def run_case(case, reports=False, keep_objects=False):
-    """case: dict(prog, flat, cfg, fault: [i, j] (0 = none), fault_kind)
+    """case: dict(prog, flat, cfg, fault: [i, j] (0 = none), fault_kind, fault_text)
     returns the trace row (JSON-able)."""
     import behave.formatter._registry as _registry
     from behave.configuration import Configuration
@@ -367,9 +367,10 @@ def run_case(case, reports=False, keep_objects=False):
                     if fault_kind == "kbd":
                         # (not modelled by Run.tla: only for checks that judge final statuses / reports)
                         raise KeyboardInterrupt()
+                    ftext = case.get("fault_text") or "hookfault%d" % hookn[0]      # (fault_text: exception text chosen by the caller)
                     if fault_kind == "assert":
-                        raise AssertionError("hookfault%d" % hookn[0])
-                    raise RuntimeError("hookfault%d" % hookn[0])
+                        raise AssertionError(ftext)
+                    raise RuntimeError(ftext)
             return h
         runner.hooks = {n: mk(n) for n in HOOKS}
         config.base_dir = os.getcwd()
